@@ -1,4 +1,5 @@
 use bytes::{Buf, BufMut, Bytes, BytesMut};
+use selium_std::errors::{Result, SeliumError};
 
 pub fn encode_message_batch(batch: Vec<Bytes>) -> Bytes {
     let mut bytes = BytesMut::new();
@@ -14,15 +15,44 @@ pub fn encode_message_batch(batch: Vec<Bytes>) -> Bytes {
     bytes.into()
 }
 
-pub fn decode_message_batch(mut bytes: Bytes) -> Vec<Bytes> {
+pub fn decode_message_batch(mut bytes: Bytes) -> Result<Vec<Bytes>> {
+    const LEN_SIZE: usize = std::mem::size_of::<u64>();
+
+    if bytes.remaining() < LEN_SIZE {
+        return Err(malformed_batch());
+    }
+
     let num_of_messages = bytes.get_u64();
+
+    // Every message occupies at least its length marker, which bounds the count by the
+    // number of bytes that actually arrived.
+    if num_of_messages > (bytes.remaining() / LEN_SIZE) as u64 {
+        return Err(malformed_batch());
+    }
+
     let mut messages = Vec::with_capacity(num_of_messages as usize);
 
     for _ in 0..num_of_messages {
+        if bytes.remaining() < LEN_SIZE {
+            return Err(malformed_batch());
+        }
+
         let message_len = bytes.get_u64();
+
+        if message_len > bytes.remaining() as u64 {
+            return Err(malformed_batch());
+        }
+
         let message_bytes = bytes.split_to(message_len as usize);
         messages.push(message_bytes);
     }
 
-    messages
+    Ok(messages)
+}
+
+fn malformed_batch() -> SeliumError {
+    SeliumError::IoError(std::io::Error::new(
+        std::io::ErrorKind::InvalidData,
+        "Malformed message batch",
+    ))
 }
